@@ -185,11 +185,27 @@ func pageMix(dur, cur []byte, pick func(page int) bool) []byte {
 	return out
 }
 
-func (g *crashGen) sequence(base string, nops int) {
+// crashScripts: operation sequences that every run starts with (random sequences follow).  "a" appends a
+// small entry, "c" commits, "g<k>" removes the entries from prevIndex+k on, "l<k>" those up to prevIndex+k.
+// They put several unflushed entries on data pages other than the header page and then cut inside them.
+var crashScripts = []struct {
+	segsize int
+	ops     []string
+}{
+	{9000, []string{"a", "a", "a", "a", "a", "c", "a", "a", "a", "a", "a", "g9", "a", "c"}},
+	{9000, []string{"a", "a", "c", "a", "a", "a", "g5", "g4", "a", "a", "g4", "c"}},
+	{5000, []string{"a", "a", "a", "c", "a", "a", "a", "a", "g7", "c", "a", "g5"}},
+	{9000, []string{"a", "a", "a", "a", "c", "l2", "a", "a", "a", "g6", "a", "c", "g3"}},
+}
+
+func (g *crashGen) sequence(base string, nops int, script []string, scriptSeg int) {
 	dir := filepath.Join(base, "live")
 	scratch := filepath.Join(base, "reopen")
 	_ = os.RemoveAll(dir)
 	segsize := []int{1024, 1024, 5000, 9000}[g.rnd.Intn(4)]
+	if script != nil {
+		segsize, nops = scriptSeg, len(script)
+	}
 	opt := Options{FileMode: 0600, SegmentSize: segsize}
 	l, err := Open(dir, 0700, opt)
 	if err != nil {
@@ -291,7 +307,37 @@ func (g *crashGen) sequence(base string, nops int) {
 		var op string
 		c := g.rnd.Intn(100)
 		var opErr error
+		if script != nil {
+			// scripted operation
+			arg := uint64(0)
+			if len(script[k]) > 1 {
+				arg, _ = strconv.ParseUint(script[k][1:], 10, 64)
+			}
+			switch script[k][0] {
+			case 'a':
+				g.fill = (g.fill + 41) % 251
+				b := make([]byte, 700+g.rnd.Intn(300))
+				for i := range b {
+					b[i] = byte(g.fill + i)
+				}
+				op = "(OAppend " + coqBytes(b) + ")"
+				idx := l.LastIndex() + 1
+				history[idx] = append(history[idx], b)
+				opErr = l.Append(b)
+			case 'c':
+				op = "OCommit"
+				opErr = l.Commit()
+			case 'g':
+				op = fmt.Sprintf("(ORemoveGTE %d)", l.PrevIndex()+arg)
+				opErr = l.RemoveGTE(l.PrevIndex() + arg)
+			case 'l':
+				op = fmt.Sprintf("(ORemoveLTE %d)", l.PrevIndex()+arg)
+				opErr = l.RemoveLTE(l.PrevIndex() + arg)
+			}
+			c = 1000
+		}
 		switch {
+		case c == 1000:
 		case c < 50:
 			b := g.payload(l.opt.SegmentSize)
 			op = "(OAppend " + coqBytes(b) + ")"
@@ -418,12 +464,20 @@ func crashMain(args []string) int {
 	nops, _ := strconv.Atoi(args[2])
 	out := args[3]
 	g := &crashGen{rnd: rand.New(rand.NewSource(seed)), desc: map[string]string{}, dist: map[string]int{}}
+	for _, sc := range crashScripts {
+		base, err := ioutil.TempDir(scratchRoot(out), "crash")
+		if err != nil {
+			panic(err)
+		}
+		g.sequence(base, 0, sc.ops, sc.segsize)
+		os.RemoveAll(base)
+	}
 	for s := 0; s < nseq; s++ {
 		base, err := ioutil.TempDir(scratchRoot(out), "crash")
 		if err != nil {
 			panic(err)
 		}
-		g.sequence(base, nops)
+		g.sequence(base, nops, nil, 0)
 		os.RemoveAll(base)
 	}
 	const shard = 8
